@@ -5,7 +5,7 @@ Model: Cpu/Impl.lean (`step`) and System/RunUntil.lean (`runUntil`, with `OnPC` 
 observer logs).  Tables regenerated from both packages.  `vh cpu` ties `step` (incl. Cycles, AllCycles, Stopped and
 the result pair) and `vh run` ties `runUntil` (result, final state, callback sequences, Logger.Write count) to the Go code.
 -/
-import SnesVerif.Cpu.Cycles
+import SnesVerif.Cpu.Interrupt
 import SnesVerif.System.RunUntil
 import SnesVerif.Cpu.Refine.Wdm
 open Cpu Sys Gen
@@ -55,6 +55,29 @@ theorem stopped_latched (v : Variant) (n : Nat) (s s' : St) (h : run v n s = som
 theorem not_stopped_before (v : Variant) (s s' : St) (h : step v s = some ((), s'))
     (hs : s.r.Stopped = false) (hn : fetchesStp v s = false) : s'.r.Stopped = false := by
   rw [(step_book v s s' h).2.2, hs, hn]; rfl
+
+/-- **C12 (Step with a pending interrupt)**: for every latch value the whole `Step()` — interrupt entry, then the
+instruction at the vector — reports at least one cycle, adds exactly the reported count to the running total (the
+interrupt sequence is not charged separately), and the stop condition is the old one or-ed with "the instruction
+executed after the entry is STP" -/
+theorem stepFull_book (v : Variant) (latch : Nat) (s s' : St) (h : stepFull v latch s = some ((), s')) :
+    ∃ s1, service v latch s = some ((), s1) ∧
+      1 ≤ s'.r.Cycles.toNat ∧
+      s'.r.AllCycles = s.r.AllCycles + s'.r.Cycles.setWidth 64 ∧
+      s'.r.Stopped = (s.r.Stopped || fetchesStp v s1) := by
+  obtain ⟨_, s1, h1, h2⟩ := bind_some (x := service v latch) (f := fun _ => step v) h
+  have k := keep_service v latch s () s1 h1
+  have b := step_book v s1 s' h2
+  exact ⟨s1, h1, b.1, by rw [b.2.1, k.1], by rw [b.2.2, k.2]⟩
+
+/-- **C12 (reset)**: `Reset()` is what clears the stop condition -/
+theorem reset_clears_stop (s s' : St) (h : reset s = some ((), s')) : s'.r.Stopped = false := by
+  unfold reset at h
+  obtain ⟨_, s1, h1, h⟩ := bind_some h
+  cases modify_some h1
+  obtain ⟨pc, s2, h2, h⟩ := bind_some h
+  cases modify_some h
+  rfl
 
 /-- opcode $42 is WDM with an immediate operand in both regenerated tables -/
 theorem wdm_rows : (rowSem (primary_instructions.getD 0x42 default)).proc = .wdm ∧
